@@ -3,7 +3,7 @@
    that vanishes (the known finding D22). *)
 From Coq Require Import String Ascii List ZArith NArith Bool Lia.
 From TT Require Import Base.Outcome Base.Str Base.F64 Xml.Print Laptimer.Leaves Laptimer.Value Laptimer.Codec
-     Proofs.Fixed_proofs Proofs.Leaf2_proofs Proofs.Leaf3_proofs.
+     Proofs.Fixed_proofs Proofs.Leaf2_proofs Proofs.Sync_proofs Proofs.Leaf3_proofs.
 Import ListNotations.
 Local Open Scope Z_scope.
 
@@ -169,16 +169,20 @@ Qed.
 (* ---- the hypothesis as a computable test (used to count, per run, how many of the generated
    databases are inside the theorem's domain) ---- *)
 From TT Require Import Base.Civil Proofs.C10_real Proofs.Leaf_proofs.
+Definition is_zero_b (x : f64) : bool := match of_bits x with Binary.B754_zero _ _ _ => true | _ => false end.
 Definition printable_b (dp : nat) (x : f64) : bool :=
+  is_zero_b x ||
   match decomp x with
   | Some (_, m, e) => (0 <=? scaled_q m e dp) && (scaled_q m e dp <? 2 ^ 51)
   | None => false
   end.
 Lemma printable_b_ok dp x : printable_b dp x = true -> printable dp x.
 Proof.
-  unfold printable_b. destruct (decomp x) as [[[s m] e]|] eqn:E; [|discriminate]. intros H.
-  apply andb_true_iff in H. destruct H as [H1 H2]. apply Z.leb_le in H1. apply Z.ltb_lt in H2.
-  apply (printable_of_decomp dp x s m e E). lia.
+  unfold printable_b. intros H. apply orb_true_iff in H. destruct H as [H|H].
+  - left. unfold is_zero_b in H. destruct (of_bits x) as [s|?|? ? ?|? ? ? ?]; try discriminate. exists s. reflexivity.
+  - destruct (decomp x) as [[[s m] e]|] eqn:E; [|discriminate].
+    apply andb_true_iff in H. destruct H as [H1 H2]. apply Z.leb_le in H1. apply Z.ltb_lt in H2.
+    apply (printable_of_decomp dp x s m e E). lia.
 Qed.
 Definition date_ok_b (t : Z) : bool :=
   (first_day * ns_per_day <=? t) && (t <? (first_day + Z.of_nat n_days) * ns_per_day).
@@ -197,7 +201,10 @@ Definition leaf_dom_b (l : leaf) : bool :=
   | LvGear _ r => printable_b 6 r
   | LvTyre _ _ sr _ => (match sr with [] => false | _ => true end) && negb (has_ws sr) && forallb valid_char sr
   | LvTags l => forallb (fun t => forallb valid_char t) l
-  | LvSync _ => false
+  | LvSync d => (d =? 0) || (match decomp_pos (seconds_f d) with
+                             | Some (m, e) => (0 <=? scaled_q m e 2) && (scaled_q m e 2 <? 2 ^ 51)
+                             | None => false
+                             end)
   end.
 Lemma dur_ok_b_ok d : dur_ok_b d = true -> 0 <= d < 2 ^ 62.
 Proof. unfold dur_ok_b. intros H. apply andb_true_iff in H. destruct H as [H1 H2]. apply Z.leb_le in H1. apply Z.ltb_lt in H2. lia. Qed.
@@ -216,6 +223,9 @@ Proof.
     split; [apply dur_ok_b_ok; exact H1|apply printable_b_ok; exact H2].
   - split; [destruct sr; [discriminate|discriminate]|]. split; [destruct (has_ws sr); [discriminate|reflexivity]|assumption].
   - rewrite forallb_forall in H. apply Forall_forall. exact H.
+  - unfold sync_dom. apply orb_true_iff in H. destruct H as [H|H]; [left; apply Z.eqb_eq; exact H|right].
+    destruct (decomp_pos (seconds_f d)) as [[m e]|]; [|discriminate]. exists m, e. split; [reflexivity|].
+    apply andb_true_iff in H. destruct H as [H1 H2]. apply Z.leb_le in H1. apply Z.ltb_lt in H2. lia.
 Qed.
 Definition keeps_b (l : leaf) : bool := match quant_leaf l with Ok l' => negb (leaf_empty l') | _ => true end.
 Lemma keeps_b_ok l : keeps_b l = true -> keeps l.
